@@ -1,0 +1,60 @@
+//go:build verif
+
+package mocrelay
+
+// Hooks for the verification harness in /verif (build tag "verif").
+// Add-only: thin wrappers around unexported identifiers; no behaviour.
+
+// VerifCacheDeletedLen returns the number of entries of the deletion registry.
+func VerifCacheDeletedLen(c *EventCache) int {
+	c.mu.RLock()
+	defer c.mu.RUnlock()
+	return len(c.deleted)
+}
+
+// VerifCacheIndexLen returns the number of keys of the secondary index.
+func VerifCacheIndexLen(c *EventCache) int {
+	c.mu.RLock()
+	defer c.mu.RUnlock()
+	return len(c.evsIndex.idx)
+}
+
+// VerifCacheTreeLen returns the number of entries of the created_at tree.
+func VerifCacheTreeLen(c *EventCache) int {
+	c.mu.RLock()
+	defer c.mu.RUnlock()
+	return c.evsCreatedAt.Len()
+}
+
+// VerifCacheEventKey exposes getEventKey.
+func VerifCacheEventKey(c *EventCache, e *Event) string { return c.getEventKey(e) }
+
+// VerifCacheOf returns the store behind a CacheHandler.
+func VerifCacheOf(h CacheHandler) *EventCache { return h.h.c }
+
+// VerifRouterRegistrySize returns the number of connections registered in the router.
+func VerifRouterRegistrySize(r *RouterHandler) int {
+	n := 0
+	r.subs.subs.Loop(func(string, *safeMap[string, *subscriber]) { n++ })
+	return n
+}
+
+// VerifRouterSubscriptionCount returns the number of live subscriptions over all connections.
+func VerifRouterSubscriptionCount(r *RouterHandler) int {
+	n := 0
+	r.subs.subs.Loop(func(_ string, m *safeMap[string, *subscriber]) {
+		m.Loop(func(string, *subscriber) { n++ })
+	})
+	return n
+}
+
+// VerifValidNaddr exposes validNaddr.
+func VerifValidNaddr(s string) bool { return validNaddr(s) }
+
+// VerifValidKind exposes validKind.
+func VerifValidKind(k int64) bool { return validKind(k) }
+
+// VerifParseMachineReadablePrefixMsg exposes parseMachineReadablePrefixMsg.
+func VerifParseMachineReadablePrefixMsg(s string) (string, string) {
+	return parseMachineReadablePrefixMsg(s)
+}
